@@ -7,6 +7,7 @@ mod util;
 mod c01;
 mod c05;
 mod stats;
+mod c13;
 
 fn main() {
     let args: Vec<String> = std::env::args().collect();
@@ -21,6 +22,9 @@ fn main() {
         ("c05", "record") => c05::record(rest),
         ("stats", "replay") => stats::replay(rest),
         ("stats", "basic") => stats::basic(rest),
+        ("c13", "replay") => c13::replay(rest),
+        ("c13", "grid") => c13::grid(rest),
+        ("c13", "record") => c13::record(rest),
         (p, m) => util::tool_error(&format!("unknown command {p} {m}")),
     }
 }
